@@ -21,6 +21,7 @@ type reloadOp struct {
 	Op    string     `json:"op"`
 	Conf  [][]string `json:"conf"`
 	Zero  [][]string `json:"zero"` // [cluster, sub] pairs configured with weight 0
+	Extra [][]string `json:"extra"` // backends present in cluster_table.data only (their sub-cluster is not in gslb.data)
 	K     []string   `json:"k"`
 	Avail bool       `json:"avail"`
 	D     int        `json:"d"`
@@ -34,6 +35,10 @@ type reloadCase struct {
 var backAddr = map[string]string{"b1": "10.1.0.1", "b2": "10.1.0.2", "b3": "fd00::3", "b4": "10.1.0.4"}
 
 func writeConfs(dir string, conf [][]string, ver int, zero ...[]string) (string, string, error) {
+	return writeConfsX(dir, conf, nil, ver, zero...)
+}
+
+func writeConfsX(dir string, conf, extra [][]string, ver int, zero ...[]string) (string, string, error) {
 	gslb := map[string]map[string]int{}
 	table := map[string]map[string][]map[string]interface{}{}
 	for _, k := range conf {
@@ -47,6 +52,14 @@ func writeConfs(dir string, conf [][]string, ver int, zero ...[]string) (string,
 			if len(z) == 2 && z[0] == c && z[1] == s {
 				gslb[c][s] = 0
 			}
+		}
+		table[c][s] = append(table[c][s], map[string]interface{}{
+			"Name": c + "." + s + "." + b, "Addr": backAddr[b], "Port": 80, "Weight": 1})
+	}
+	for _, k := range extra {
+		c, s, b := k[0], k[1], k[2]
+		if table[c] == nil {
+			continue
 		}
 		table[c][s] = append(table[c][s], map[string]interface{}{
 			"Name": c + "." + s + "." + b, "Addr": backAddr[b], "Port": 80, "Weight": 1})
@@ -151,7 +164,7 @@ func reloadRun() {
 		for i, op := range c.Ops {
 			switch op.Op {
 			case "init", "reload":
-				gf, tf, err := writeConfs(dir, op.Conf, i, op.Zero...)
+				gf, tf, err := writeConfsX(dir, op.Conf, op.Extra, i, op.Zero...)
 				if err != nil {
 					panic(err)
 				}
